@@ -31,7 +31,7 @@ Inductive mkind :=
 | KNote (w : nwhat) (valid : bool)            (* valid: passes the seq / payload / p2p checks at the top of Session.note *)
 | KGet (any desc_or_sub : bool)                (* MetaWhat != 0; MetaWhat & (desc|sub) != 0 *)
 | KSet (any tags_or_cred : bool)
-| KDelTopic
+| KDelTopic (owner : bool)                     (* {del what=topic}; owner: the requester is the stored owner of the (group) topic *)
 | KDelOther (known : bool)
 | KLeave (unsub : bool)
 | KSub.
@@ -92,7 +92,7 @@ Definition route (ti : tinfo) (h : held) (m : cmsg) : held * list reply :=
       if negb any then (h, [own m 400])
       else if tc then (h, [own m 403])
       else (h, [own m code_oracle])                               (* hub.meta -> go replyOfflineTopicSetSub *)
-  | KDelTopic =>
+  | KDelTopic _ =>
       (* hub.unreg -> topicUnreg(sess, topic, msg, StopDeleted) *)
       if h_registered h then
         (* t.owner is still zero: the requester is not "the owner" *)
@@ -131,17 +131,32 @@ Definition release_fail (as_is : bool) (errcode : N) (h : held) : list reply :=
   ++ map (fun m => own m 503) (h_meta h).                         (* ErrLockedReply(msg, ...) *)
 
 (* the load succeeds *)
+Definition is_empty (s : str) : bool := match s with [] => true | _ => false end.
+
 Definition client_reply (m : cmsg) : list reply :=
   match m_kind m with
-  | KPub => [own m code_oracle]                                   (* handlePubBroadcast: exactly one {ctrl} with msg.Id *)
+  | KPub => if is_empty (m_id m) then []                          (* an accepted {pub} without id is not acknowledged: `if msg.Id != ""` *)
+            else [own m code_oracle]                              (* handlePubBroadcast: exactly one {ctrl} with msg.Id *)
   | _ => []                                                       (* handleNoteBroadcast never replies *)
+  end.
+
+(* a {pub} carries an id (a {pub} without id is by protocol design not acknowledged when accepted) *)
+Definition pub_has_id (m : cmsg) : bool := match m_kind m with KPub => negb (is_empty (m_id m)) | _ => true end.
+
+(* handleMeta -> handleMetaDel -> replyDelTopic (topic.go:3095-3103): a requester who is not the owner is
+   unsubscribed and answered; for the owner the function logs "replyDelTopic called by owner (SHOULD NOT HAPPEN!)"
+   and returns WITHOUT a reply *)
+Definition meta_reply (m : cmsg) : list reply :=
+  match m_kind m with
+  | KDelTopic true => []
+  | _ => [own m code_oracle]
   end.
 
 Definition release_ok (h : held) : list reply :=
   if h_deleted h then []                                          (* `if t.isDeleted() { return }`: nobody is told *)
   else own (h_join h) code_oracle
        :: flat_map client_reply (h_client h)
-       ++ map (fun m => own m code_oracle) (h_meta h).
+       ++ flat_map meta_reply (h_meta h).
 
 Inductive release := RelOk | RelFail (errcode : N).
 
@@ -176,4 +191,6 @@ Definition ti_sys_topic : tinfo := mkTi true false.
 Definition ti_p2p_topic : tinfo := mkTi false true.
 Definition w_join : cmsg := mkMsg 1 [115;49] KSub.                          (* session 1: {sub id="s1"} *)
 Definition w_pub : cmsg := mkMsg 2 [112;55] KPub.                           (* session 2: {pub id="p7" topic="sys"} *)
-Definition w_del : cmsg := mkMsg 3 [100;51] KDelTopic.                      (* session 3: {del id="d3" what="topic"} *)
+Definition w_del : cmsg := mkMsg 3 [100;51] (KDelTopic false).              (* session 3: {del id="d3" what="topic"} *)
+Definition ti_grp_topic : tinfo := mkTi false false.
+Definition w_del_owner : cmsg := mkMsg 3 [100;51] (KDelTopic true).         (* the same from the owner of the group topic *)
